@@ -7,7 +7,7 @@ REQUIRED = ["CifModel.C12_clean", "CifModel.C12_first_report_is_policy_free", "C
             "CifModel.C12_delimiters_instance", "CifModel.C12_table_keys_instance", "CifModel.C12_key_at_container_level_instance",
             "CifModel.C12_frames_instance", "CifModel.Model.Parser.parse_spec",
             "CifModel.C12_missing_value", "CifModel.C12_unexpected_value", "CifModel.C12_dup_itemname", "CifModel.C12_empty_loop",
-            "CifModel.C12_no_block_header"]
+            "CifModel.C12_no_block_header", "CifModel.C12_partial_packet", "CifModel.C12_dup_header_name"]
 GEN = ["ErrCodes", "CharClass", "ParseConsts"]
 FAMILIES = ["defect"]
 TRUSTED_BASE = [
@@ -24,13 +24,13 @@ ASSUMPTIONS = [
     "invalid bare value may come back quoted or unquoted, a NULL-keyed table entry is dropped",
 ]
 PARTIAL = [
-    "universally quantified class theorems are proved at the TOKEN level for five classes — C12_no_block_header (whole document: any "
+    "universally quantified class theorems are proved at the TOKEN level for seven classes — C12_partial_packet (any complete packets, then a short one), C12_dup_header_name (normalised comparison: any spelling; against the container or earlier header names; the column is dropped from every packet), C12_no_block_header (whole document: any "
     "well-formed elements before the first header, any blocks behind), C12_missing_value, C12_unexpected_value, "
     "C12_dup_itemname (any spelling), C12_empty_loop: any container (block or frame), any well-formed run of items before and behind "
     "the defect, accept-all: exactly one report with the class's code and the documented content, surroundings unaffected "
     "(Lemmas/ParserDefect.lean: defect_run + one step lemma per class).  Not proved universally: the line clause at document level "
     "(shown at step level), the embedding into whole documents / characters (as for C01: the lexical glue), and the remaining classes "
-    "(duplicate name in a loop header, partial packet, delimiters, keys, frames, lexical "
+    "(the combination partial packet after a dropped header name, delimiters, keys, frames, lexical "
     "classes): for those the statement is kept as C12_class_full (def … : Prop).  Also proved are C12_clean and C12_first_report_is_policy_free (all inputs, all policies: a defect-free "
     "document is read identically under every policy; the first report of a defective one does not depend on the policy) and, per "
     "class, kernel-evaluated INSTANCES (one planted defect each: missing value, unexpected value, duplicate scalar name, duplicate "
